@@ -396,6 +396,9 @@ func checkC13(c *Ctx) {
 	}
 	r.Count("typestate summaries", m.ts.FunctionsAnalysed())
 	r.Count("typestate steps", m.ts.Steps)
+	// "no command sequence (malformed input included) crashes the server": the command parser
+	c.parserIndex("C13/PANIC/parser", "pkg/server/pop3", m.root, "POP3", 1)
+	r.Floor("C13/SESSION/own-connection", "go statements in loops of the POP3 server package", c.ownConnection("C13/SESSION/own-connection", "pkg/server/pop3"), 1)
 
 	// ---- D1
 	loads := map[ssa.Instruction][]tsEvent{}
